@@ -241,3 +241,98 @@ func TestChildCase(t *testing.T) {
 		t.Fatal(err)
 	}
 }
+
+// quadTiles: the children of parent (px,py) (zoom Z-1) selected by mask (bit i = child i%2, i/2).
+func quadTiles(px, py uint32, mask int) [][2]uint32 {
+	var out [][2]uint32
+	for b := 0; b < 4; b++ {
+		if mask&(1<<uint(b)) != 0 {
+			out = append(out, [2]uint32{2*px + uint32(b%2), 2*py + uint32(b/2)})
+		}
+	}
+	return out
+}
+
+// TestEnumMergeSpread (round M, class M4): parts of ONE merge input at very
+// different positions. Two or three quads whose parents are k*2^j rows and/or
+// columns apart (every j up to the height of the pyramid, k = 1..3, wrapping
+// around the world), at zoom 18..22 and at zoom 30, as partial quads whose child
+// counts add up to 4 (1+3, 2+2, 3+1, 1+1+2), complete quads next to partial and
+// next to complete ones, and 4x4 blocks (two levels merge); MergeUp and
+// MergeUpPartial(4) to targets Z-1, Z-2, Z-12 and 0, judged by the exact
+// area / ancestor / sibling-quad model of verifyMerge.
+func TestEnumMergeSpread(t *testing.T) {
+	assumptions()
+	var idx, size int64
+	run := func(z uint32, tiles [][2]uint32, class string) {
+		targets := []uint32{z - 1, z - 2, z - 12, 0}
+		for _, target := range targets {
+			idx++
+			size++
+			if !stats.Mine(idx) {
+				continue
+			}
+			c := Case{Kind: "merge", Class: class, Z: z, Target: target, Tiles: tiles}
+			stats.Eval("TestEnumMergeSpread", 1)
+			var inf info
+			stats.TryT(t, "TestEnumMergeSpread", c, func() error {
+				var err error
+				inf, err = evaluate(c)
+				return err
+			})
+			if inf.mergedQuad {
+				stats.NonTrivial(gen.JSON(c))
+			}
+		}
+	}
+	// compositions: child masks of the quads at offset 0, d, 2d
+	comps := [][]int{
+		{0b0001, 0b1110}, {0b0011, 0b1100}, {0b0111, 0b1000}, {0b0101, 0b0101}, {0b1001, 0b0110},
+		{0b0001, 0b0010, 0b1100}, {0b1000, 0b0001, 0b0011},
+		{0b1111, 0b0001}, {0b1111, 0b0111}, {0b1111, 0b1111}, {0b0111, 0b1111, 0b0001}, {0b1111, 0b1111, 0b1111},
+	}
+	for _, z := range []uint32{18, 19, 20, 21, 22, 30} {
+		pn := uint32(1) << (z - 1) // parents per row
+		bx, by := pn/4+5, uint32(3)
+		for j := uint32(0); j <= z-2; j++ {
+			for k := uint32(1); k <= 3; k++ {
+				d := k << j
+				for axis := 0; axis < 3; axis++ {
+					for _, masks := range comps {
+						var tiles [][2]uint32
+						for i, m := range masks {
+							px, py := bx, by
+							if axis != 0 {
+								py = (by + uint32(i)*d) % pn
+							}
+							if axis != 1 {
+								px = (bx + uint32(i)*d) % pn
+							}
+							tiles = append(tiles, quadTiles(px, py, m)...)
+						}
+						run(z, tiles, "enum/merge spread")
+					}
+					// 4x4 blocks (grandparents) the same distance apart: two levels merge
+					var tiles [][2]uint32
+					for i := uint32(0); i < 2; i++ {
+						gx, gy := (bx/2+i*d/2)%(pn/2), (by/2+i*d/2)%(pn/2)
+						if axis == 0 {
+							gy = by / 2
+						}
+						if axis == 1 {
+							gx = bx / 2
+						}
+						for b := uint32(0); b < 16; b++ {
+							if i == 1 && b == 5 {
+								continue // the second block lacks one tile
+							}
+							tiles = append(tiles, [2]uint32{4*gx + b%4, 4*gy + b/4})
+						}
+					}
+					run(z, tiles, "enum/merge spread blocks")
+				}
+			}
+		}
+	}
+	stats.Subspace("merge inputs of 2-3 quads (partial 1+3, 2+2, 3+1, 1+1+2; complete next to partial / complete) and of two 4x4 blocks whose parents are k*2^j (j = 0..Z-2, k = 1..3) rows, columns or both apart, zoom 18..22 and 30, targets Z-1, Z-2, Z-12, 0", size, true)
+}
